@@ -330,6 +330,44 @@ def check(res, tier, seed):
         elif not leak:
             res.violation("ep-child-died", "harness child died in family %s at case %s (see output)" % (d["family"], d["index"]),
                           dict(kind="ep", family=d["family"], index=d["index"], output=d["tail"]), no_failing_input=True)
+    # stream links torn down while a raw peer keeps sending (real scheduler, no yield points)
+    if pid in ("C03", "C05", "C14", "C15"):
+        nst = 36 if tier == "quick" else 600
+        srecs, src, sout = C.run_job(binary, wd, "streamtear", dict(family="sys", seed=seed, n=nst, cases=["streamtear"]), timeout=400)
+        fam["streamtear"] = len(srecs)
+        if src != 0:
+            tail = sout[-3000:]
+            if pid in ("C05", "C15", "C14"):
+                monitor_hits += 1
+                line = next((l for l in sout.splitlines() if l.startswith("panic:") or "fatal error" in l), (sout.strip().splitlines() or ["?"])[-1])
+                res.violation("streamtear-crash", "the process died while a stream link was torn down with the peer still sending: %s" % line[:300],
+                              dict(kind="streamtear", last=srecs[-1] if srecs else None, output=tail))
+        for r in srecs:
+            vs = []
+            for n in r.get("notes") or []:
+                if pid == "C15" or (pid == "C14" and "enumerated" in n) or (pid == "C05" and ("did not return" in n or "deadlock" in n)) or (pid == "C03" and "did not return" in n):
+                    vs.append(n)
+            hooks = [e["m"] for e in r.get("events") or [] if e["kind"] == "hook"]
+            if pid == "C14" and not r.get("hang") and sorted(hooks) != ["connect", "disconnect"]:
+                vs.append("stream link teardown produced hook notifications %s, expected exactly one connect and one disconnect" % hooks)
+            for c in r.get("calls") or []:
+                if c.get("extra") == "inflight" and pid == "C03" and (not c.get("done") or c["err"] == ""):
+                    vs.append("the call in flight when the stream link ended returned (%s, %r)" % (c.get("ret"), c["err"]))
+            if vs:
+                monitor_hits += 1
+                res.violation("streamtear:" + re.sub(r"\d+", "N", vs[0])[:50], "implementation violates %s when a stream link is torn down: %s" % (pid, vs[0]),
+                              dict(kind="streamtear", config=r["config"], seed=r["seed"], all=vs, link_error=r.get("linkA")))
+    if pid == "C14":
+        # black-box: hubs with failing and re-established links, notifications probed for atomicity
+        from . import sys_props
+        hrecs, hrc, hout = C.run_job(binary, wd, "hubhooks", dict(family="sys", seed=seed, n=(24 if tier == "quick" else 300), cases=["hub", "errors"], params=dict(percase=4)), timeout=400)
+        fam["hub+errors(hooks)"] = len(hrecs)
+        for r in hrecs:
+            vs = sys_props.mon_hooks(r)
+            if vs:
+                monitor_hits += 1
+                res.violation("hooks:" + re.sub(r"[0-9a-f-]{36}", "ID", vs[0])[:60], "implementation violates C14: %s" % vs[0],
+                              dict(kind="sys", family=r["family"], config=r["config"], seed=r["seed"], all=vs[:8]))
     facts = [Facts(r) for r in recs]
     for r, f in zip(recs, facts):
         vs = mon(f)
@@ -355,6 +393,15 @@ def check(res, tier, seed):
             continue
         res.violation("ep-untranslatable", "the implementation produced an observation the model has no word for (unknown label, thread or event)",
                       dict(kind="ep", calls=r["calls"], choices=choices_of(r)), no_failing_input=(monitor_hits == 0))
+    if pid in ("C03", "C05", "C12", "C15"):
+        from . import locksets
+        srecs2, src2, sout2 = C.run_job(binary, wd, "stress", dict(family="bcast-stress", seed=seed, n=(60000 if tier == "quick" else 1500000)), timeout=600)
+        for sr in srecs2:
+            if sr.get("violates") and pid in ("C03", "C15"):
+                monitor_hits += 1
+                res.violation("bcast-stress", "pending-call table under the real scheduler: %s (a call registered this way can never be woken: it hangs / its entry is retained)" % sr["violates"],
+                              dict(kind="bcast-stress", result=sr))
+        locksets.atomicity_obligation(res, monitor_hits)
     if getattr(res, "proof_broken", None):
         why, log = res.proof_broken
         res.violation("proof-broken", "proof obligations of %s no longer check: %s" % (pid, why),
